@@ -6,7 +6,7 @@ Require Import MV.Cfg.Skel MV.Cfg.SkelCheck MV.Flow.SetExpr MV.Flow.Dataflow MV.
 
 Definition lv_table : table :=
   mktable lv_scoped_in lv_scoped_out lv_ignored_in lv_ignored_out XEmpty
-          lv_include_annotations lv_join_over_next lv_join_reads_in.
+          lv_include_annotations lv_join_over_next lv_join_reads_in false.
 
 Record lv_case : Type := mklvcase {
   lc_idx : nat; lc_fn : fn; lc_edges : list edge; lc_nodes : list lnode;
@@ -14,7 +14,8 @@ Record lv_case : Type := mklvcase {
 
 (* 0 ok | 1 model graph not contained in the implementation's | 2 reported sets are not the fixed point of the
    generated equations | 3 soundness inclusions (Python-side gen/kill) | 4 annotations | 5 DEFINED_FNS_IN
-   | 6 only: variables a reaching local function reads and declares nonlocal are not live (known finding) *)
+   | 6 only: variables a reaching local function reads and declares nonlocal are not live
+   | 7 only: the edge-sensitive (unguarded) inclusions fail: a for header kills its target on the exit edge (known finding) *)
 Definition lv_code (c : lv_case) : nat :=
   let E := lc_edges c in
   let ns := lc_nodes c in
@@ -25,6 +26,7 @@ Definition lv_code (c : lv_case) : nat :=
   else if negb (forallb (lv_anno_ok E ns) (lc_annos c)) then 4
   else if negb (fn_sound E (reach_fwd E (f_args (lc_fn c))) (lc_fnrows c)) then 5
   else if negb (lv_sound E ns true R) then 6
+  else if negb (lv_sound_e E ns true R) then 7
   else 0.
 
 Definition lv_failing (cs : list lv_case) : list nat :=
